@@ -73,6 +73,10 @@ func main() {
 		fmt.Fprintln(os.Stderr, "usage: srcgen -repo DIR -out DIR")
 		os.Exit(2)
 	}
+	if os.Getenv("DUMPBODIES") != "" {
+		fmt.Print(dumpBodies(filepath.Join(*repo, "unmarshaler"), "Unmarshaler.unmarshal", "Unmarshaler.unmarshalCause", "Unmarshaler.resolveKind", "Unmarshaler.resolveDefinitionFromMessage", "Unmarshaler.Unmarshal"))
+		return
+	}
 	p, err := load(*repo)
 	if err != nil {
 		fmt.Fprintln(os.Stderr, "srcgen:", err)
@@ -84,11 +88,12 @@ func main() {
 	bounds := genBounds(*repo)
 	sliceops := genSliceOps(*repo)
 	resolverSrc := genResolverSrc(*repo)
+	unmarshalSrc := genUnmarshalSrc(*repo)
 	if err := os.MkdirAll(*out, 0o755); err != nil {
 		fmt.Fprintln(os.Stderr, "srcgen:", err)
 		os.Exit(1)
 	}
-	for name, text := range map[string]string{"Consts.v": consts, "Chain.v": chain, "Effects.v": effects, "Bounds.v": bounds, "SliceOps.v": sliceops, "ResolverSrc.v": resolverSrc} {
+	for name, text := range map[string]string{"Consts.v": consts, "Chain.v": chain, "Effects.v": effects, "Bounds.v": bounds, "SliceOps.v": sliceops, "ResolverSrc.v": resolverSrc, "UnmarshalSrc.v": unmarshalSrc} {
 		path := filepath.Join(*out, name)
 		old, err := os.ReadFile(path)
 		if err == nil && string(old) == text {
